@@ -1,5 +1,127 @@
-import JSight.Model.TagName
 import JSight.Model.PathPar
-import JSight.Model.IncName
+import JSight.Proofs.C13
+/-!
+C13 — path parameters (`core/path_parameter.go`).  Property theorems only; helper lemmas are in
+`JSight/Proofs/C13.lean`.
+-/
 namespace JSight.C13
+open JSight
+
+/-- components are non-empty and contain no '/' -/
+theorem splitPath_components (p : Bytes) : ∀ s ∈ splitPath p, s ≠ [] ∧ B.slash ∉ s := by
+  intro s hs
+  unfold splitPath at hs
+  rcases List.mem_filter.mp hs with ⟨hmem, hne⟩
+  refine ⟨?_, splitSlash_noslash p s hmem⟩
+  intro h
+  subst h
+  simp at hne
+
+/-- declarative reading of the loop: the i-th segment contributes iff it is "{…}", with the prefix
+    made of segments 0..i -/
+theorem pathParameters_spec (p : Bytes) :
+    pathParameters p =
+      (List.range (splitPath p).length).filterMap fun i =>
+        match (splitPath p)[i]? with
+        | some seg => if isParamSeg seg then some (joinSlash ((splitPath p).take (i + 1)), paramInner seg) else none
+        | none => none := by
+  unfold pathParameters
+  rw [loop_spec]
+  congr 1
+
+/-- the names are exactly the insides of the brace segments, in path order -/
+theorem pathParameters_names (p : Bytes) :
+    (pathParameters p).map (·.2) = ((splitPath p).filter isParamSeg).map paramInner :=
+  loop_names [] (splitPath p)
+
+/-- accepted iff no empty name and no repeated name; then the result is the full list -/
+theorem checked_ok_iff (p : Bytes) (pp : List (Bytes × Bytes)) :
+    checkedPathParameters p = .ok pp ↔
+      (pp = pathParameters p ∧ (∀ x ∈ pp, x.2 ≠ []) ∧ (pp.map (·.2)).Nodup) := by
+  unfold checkedPathParameters
+  constructor
+  · intro h
+    by_cases he : hasEmptyParam (pathParameters p) = true
+    · simp [he] at h
+    · have he' : hasEmptyParam (pathParameters p) = false := by simpa using he
+      cases hd : dupParam [] (pathParameters p) with
+      | some n => simp [he', hd] at h
+      | none =>
+        simp [he', hd] at h
+        subst h
+        exact ⟨rfl, (hasEmptyParam_false_iff _).mp he', (dupParam_nil_none_iff _).mp hd⟩
+  · rintro ⟨rfl, hne, hnd⟩
+    have he : hasEmptyParam (pathParameters p) = false := (hasEmptyParam_false_iff _).mpr hne
+    have hd : dupParam [] (pathParameters p) = none := (dupParam_nil_none_iff _).mpr hnd
+    simp [he, hd]
+
+/-- a path with an empty `{}` segment is rejected -/
+theorem empty_rejected (p : Bytes) (h : [B.lbrace, B.rbrace] ∈ splitPath p) :
+    checkedPathParameters p = .error .empty := by
+  have hn : ([] : Bytes) ∈ (pathParameters p).map (·.2) := by
+    rw [pathParameters_names]
+    refine List.mem_map.mpr ⟨[B.lbrace, B.rbrace], List.mem_filter.mpr ⟨h, by decide⟩, by decide⟩
+  rcases List.mem_map.mp hn with ⟨x, hx, hxe⟩
+  have he : hasEmptyParam (pathParameters p) = true := by
+    unfold hasEmptyParam
+    exact List.any_eq_true.mpr ⟨x, hx, by rw [hxe]; rfl⟩
+  unfold checkedPathParameters
+  simp [he]
+
+/-- the same parameter name twice in one path is rejected -/
+theorem repeated_rejected (p : Bytes) (h : ¬ ((pathParameters p).map (·.2)).Nodup) :
+    ∃ e, checkedPathParameters p = .error e := by
+  cases hc : checkedPathParameters p with
+  | error e => exact ⟨e, rfl⟩
+  | ok pp =>
+    rcases (checked_ok_iff p pp).mp hc with ⟨rfl, _, hnd⟩
+    exact absurd hnd h
+
+/-- more precisely: a repeated name in a path without empty names is reported as `dup` -/
+theorem repeated_rejected_dup (p : Bytes) (hne : ∀ x ∈ pathParameters p, x.2 ≠ [])
+    (h : ¬ ((pathParameters p).map (·.2)).Nodup) :
+    ∃ n, checkedPathParameters p = .error (.dup n) := by
+  have he : hasEmptyParam (pathParameters p) = false := (hasEmptyParam_false_iff _).mpr hne
+  cases hd : dupParam [] (pathParameters p) with
+  | none => exact absurd ((dupParam_nil_none_iff _).mp hd) h
+  | some n => exact ⟨n, by simp [checkedPathParameters, he, hd]⟩
+
+/-! ### non-vacuity checks on concrete paths -/
+
+/-- `Except` has no `DecidableEq` in core; needed only for the `decide` checks below -/
+local instance : DecidableEq (Except PathParErr (List (Bytes × Bytes)))
+  | .ok a, .ok b => if h : a = b then isTrue (by rw [h]) else isFalse (fun e => h (Except.ok.inj e))
+  | .error a, .error b =>
+    if h : a = b then isTrue (by rw [h]) else isFalse (fun e => h (Except.error.inj e))
+  | .ok _, .error _ => isFalse (fun e => by cases e)
+  | .error _, .ok _ => isFalse (fun e => by cases e)
+
+-- "/a/{id}/b/{x}"  ↦  [("a/{id}", "id"), ("a/{id}/b/{x}", "x")]
+example : pathParameters [47, 97, 47, 123, 105, 100, 125, 47, 98, 47, 123, 120, 125] =
+    [([97, 47, 123, 105, 100, 125], [105, 100]),
+     ([97, 47, 123, 105, 100, 125, 47, 98, 47, 123, 120, 125], [120])] := by decide
+
+-- "/a/{id}/b/{x}" is accepted
+example : checkedPathParameters [47, 97, 47, 123, 105, 100, 125, 47, 98, 47, 123, 120, 125] =
+    .ok [([97, 47, 123, 105, 100, 125], [105, 100]),
+         ([97, 47, 123, 105, 100, 125, 47, 98, 47, 123, 120, 125], [120])] := by decide
+
+-- "//a//b/" has the components "a", "b" and no parameters
+example : splitPath [47, 47, 97, 47, 47, 98, 47] = [[97], [98]] := by decide
+example : pathParameters [47, 47, 97, 47, 47, 98, 47] = [] := by decide
+
+-- "/a/{}" is rejected: empty name
+example : checkedPathParameters [47, 97, 47, 123, 125] = .error .empty := by decide
+
+-- "/{x}/a/{x}" is rejected: "x" twice
+example : checkedPathParameters [47, 123, 120, 125, 47, 97, 47, 123, 120, 125] =
+    .error (.dup [120]) := by decide
+
+-- "/{}/{}" : the empty-name check comes first
+example : checkedPathParameters [47, 123, 125, 47, 123, 125] = .error .empty := by decide
+
+-- "/{" and "/a{b}" are not parameters
+example : pathParameters [47, 123] = [] := by decide
+example : pathParameters [47, 97, 123, 98, 125] = [] := by decide
+
 end JSight.C13
